@@ -18,11 +18,13 @@ open Py
 
 /-! ### messages -/
 
-/-- what `IrcMsg.__eq__` compares (the harness uses no server tags) -/
+/-- what `IrcMsg.__eq__` compares: prefix, command, args and the server tags (a dict: the harness
+hands it over sorted by key, so list equality is dict equality) -/
 structure Content where
   pfx : Str
   cmd : Str
   args : List Str
+  tags : List (Str × Option Str) := []
 deriving DecidableEq, Repr
 
 /-- object identity: created by the caller (`ext`) or inside the bot (`int`: ping, connect
@@ -136,7 +138,7 @@ structure Irc where
   lastPing : Nat
   outstandingPing : Bool
   echoAcked : Bool          -- 'echo-message' in state.capabilities_ack
-  echoed : List Oid         -- objects carrying the `emulatedEcho` tag
+  echoed : List Oid         -- objects carrying the `emulatedEcho` tag: the echo copies fed back
   nextOid : Nat             -- supply of identities for objects created inside the bot
 
 /-- messages waiting in either queue -/
@@ -238,7 +240,7 @@ def pingBranch (s : Irc) : Irc × List Ev :=
       let r := reset s
       (r.1, .driverReconnect :: r.2)
     else if !s.zombie then
-      let m : Msg := ⟨.int s.nextOid, ⟨[], ['P', 'I', 'N', 'G'], [natDec s.now]⟩⟩
+      let m : Msg := ⟨.int s.nextOid, ⟨[], ['P', 'I', 'N', 'G'], [natDec s.now], []⟩⟩
       queueMsg { s with lastPing := s.now, outstandingPing := true, nextOid := s.nextOid + 1 } m
     else (s, [])
   else (s, [])
@@ -249,7 +251,9 @@ inductive Delivery where
   | lost (m : Msg)      -- AssertionError in the echo emulation (firewall → None)
 deriving DecidableEq, Repr
 
-/-- the `if msg:` block of `takeMsg` for the dequeued message `m` -/
+/-- the `if msg:` block of `takeMsg` for the dequeued message `m`.  Since the repair the emulated
+echo is a tagged *copy* (a new object) of the outgoing message; the assertion still refuses a
+message that itself carries the tag (an echo copy some plugin sends back). -/
 def deliver (s : Irc) (m : Msg) : Irc × Delivery :=
   match runFilters s.cfg.filters s.nextOid m with
   | (none, n) => ({ s with nextOid := n }, .dropped)
@@ -257,7 +261,7 @@ def deliver (s : Irc) (m : Msg) : Irc × Delivery :=
     let s1 := { s with nextOid := n }
     if isEchoCmd out.cmd && !s.echoAcked then
       if out.oid ∈ s.echoed then (s1, .lost out)       -- assert not msg.tagged('emulatedEcho')
-      else ({ s1 with echoed := out.oid :: s.echoed }, .out out)
+      else ({ s1 with echoed := .int n :: s.echoed, nextOid := n + 1 }, .out out)
     else (s1, .out out)
 
 /-- the body of `takeMsg`; `again` stands for the recursive call `return self.takeMsg()` made
